@@ -15,6 +15,11 @@ def render(block, ind=0):
         elif k == "brk": out.append(pad + "break")
         elif k == "cont": out.append(pad + "continue")
         elif k == "ret": out.append(pad + ("return" if s[1] is None else f"return r({s[1]})"))
+        elif k == "def":
+            # a nested function (its own namespace: its own return flag, no access to outer loops), called at once
+            out.append(f"{pad}def g{s[1]}():")
+            out += render(s[2], ind + 1)
+            out.append(f"{pad}RESULT.append(g{s[1]}())")
         else:
             head = {"if": f"if c({s[1]}):", "while": f"while c({s[1]}):", "for": f"for x{s[1]} in it({s[1]}):"}[k]
             out.append(pad + head)
@@ -83,6 +88,9 @@ def number(block):
             elif s[0] in ("if", "while", "for"):
                 i = next(cnt)
                 r.append((s[0], i, go(s[2]), go(s[3])))
+            elif s[0] == "def":
+                i = next(cnt)
+                r.append(("def", i, go(s[2]), []))
             else:
                 r.append(s)
         return r
@@ -95,21 +103,24 @@ def enumerate_skeletons(max_nodes, depth, infn):
             yield number(b)
 
 
-def random_skeleton(rng, nodes, depth, infn):
-    """a random block with about `nodes` statement nodes"""
-    def block(n, d, inloop, allow_empty=False):
+def random_skeleton(rng, nodes, depth, infn, with_defs=True):
+    """a random block with about `nodes` statement nodes, biased towards interrupts followed by more code"""
+    def block(n, d, inloop, infn):
         out = []
-        if n == 0:
-            return out
         while n > 0:
-            if d > 0 and n >= 2 and rng.random() < 0.55:
-                k = rng.choice(["if", "while", "for"])
+            r = rng.random()
+            if d > 0 and n >= 2 and r < 0.55:
+                k = rng.choice(["if", "if", "while", "for"])
                 size = rng.randrange(2, n + 1)
                 nb = rng.randrange(1, size)
                 ne = size - 1 - nb
                 if rng.random() < 0.5:
                     nb += ne; ne = 0
-                out.append((k, 0, block(nb, d - 1, inloop or k != "if"), block(ne, d - 1, inloop)))
+                out.append((k, 0, block(nb, d - 1, inloop or k != "if", infn), block(ne, d - 1, inloop, infn)))
+                n -= size
+            elif with_defs and d > 0 and n >= 2 and r < 0.62:
+                size = rng.randrange(2, n + 1)
+                out.append(("def", 0, block(size - 1, d - 1, False, True), []))
                 n -= size
             else:
                 ch = ["atom", "atom"]
@@ -119,7 +130,21 @@ def random_skeleton(rng, nodes, depth, infn):
                 out.append({"atom": ("atom", 0), "brk": ("brk",), "cont": ("cont",), "ret": ("ret", 0), "retn": ("ret", None)}[c])
                 n -= 1
         return out
-    return number(block(nodes, depth, False))
+    return number(block(nodes, depth, False, infn))
+
+
+def densify(block):
+    """a marker after every statement of every block: whatever runs when it should not becomes visible"""
+    out = []
+    for s in block:
+        if s[0] in ("if", "while", "for"):
+            out.append((s[0], 0, densify(s[2]), densify(s[3]) if s[3] else []))
+        elif s[0] == "def":
+            out.append(("def", 0, densify(s[2]), []))
+        else:
+            out.append(s)
+        out.append(("atom", 0))
+    return out
 
 
 # ------------------------------------------------------------------ trace oracle
